@@ -8,3 +8,35 @@ package hamt
 // visible to the directory layer above)
 //@ func (*Shard).Find
 //@   assumed
+
+// ---- C15: the bit cursor over a name's hash --------------------------------------------------
+// Next(i)/next(i) consume exactly i bits, never read outside the hash, and return a value below
+// 2^i (so an index taken with log2(width) bits always falls inside a shard of that width).
+//@ func mkmask
+//@   prop C15
+//@   arith bv
+//@   requires 0 <= n && n <= 8
+//@   ensures[low_n_bits] n < 8 ==> uint64(result) == (1 << uint64(n)) - 1
+//@   ensures[full_byte] n == 8 ==> result == 255
+//@ func (*hashBits).next
+//@   prop C15
+//@   arith bv
+//@   safety index
+//@   requires hb != nil && 0 <= hb.consumed && 1 <= i && i <= 56
+//@   requires[enough_bits] len(hb.b) <= 576460752303423487 && hb.consumed <= len(hb.b) * 8 && hb.consumed + i <= len(hb.b) * 8
+//@   modifies hb.consumed
+//@   ensures[consumes_i_bits] hb.consumed == old(hb.consumed) + i
+//@   ensures[below_two_to_the_i] 0 <= result && result < (1 << uint64(i))
+//@ func (*hashBits).Next
+//@   prop C15
+//@   arith bv
+//@   requires hb != nil && 0 <= hb.consumed && 1 <= i && i <= 56 && len(hb.b) <= 576460752303423487 && hb.consumed <= len(hb.b) * 8
+//@   modifies hb.consumed
+//@   ensures[enough_bits_or_error] (err == nil) == (old(hb.consumed) + i <= len(hb.b) * 8)
+//@   ensures[consumes_i_bits] err == nil ==> hb.consumed == old(hb.consumed) + i && 0 <= result0 && result0 < (1 << uint64(i))
+//@   ensures[error_consumes_nothing] err != nil ==> hb.consumed == old(hb.consumed)
+//@ func Logtwo
+//@   prop C15
+//@   arith bv
+//@   ensures[power_of_two] err == nil ==> 0 <= result0 && result0 < 63 && (1 << uint64(result0)) == v
+//@   ensures[others_refused] (v <= 0) ==> err != nil
